@@ -323,7 +323,11 @@ func (s *seamState) hookWrite(f *os.File, b []byte) (int, error, bool) {
 				n, _ = f.VerifRawWrite(b[:k])
 				s.wrBytes[f] += int64(n)
 			}
-			return n, &os.PathError{Op: "write", Path: f.Name(), Err: errnoOf(ft.Errno)}, true
+			pth := f.Name()
+			if f == s.stdout {
+				pth = "/dev/stdout"
+			}
+			return n, &os.PathError{Op: "write", Path: pth, Err: errnoOf(ft.Errno)}, true
 		}
 	}
 	if fd, ok := s.pipeWFds[f]; ok {
